@@ -44,7 +44,7 @@ inductive EqOp | assign | refAssign | addAsg | subAsg | mulAsg
 deriving DecidableEq, Repr, Inhabited
 
 /-- type names usable in a typed catch clause / typed parameter -/
-inductive TyTag | int | bool | string | evalError | exception_
+inductive TyTag | int | bool | string | evalError | exception_ | runtimeError | outOfRange | logicError
 deriving DecidableEq, Repr, Inhabited
 
 inductive Node
